@@ -56,6 +56,50 @@ CHECKS = {
         "hand-written model tied by bounded differential execution.",
    technique="Lean 4 proof (history_refines via probing invariant + doubling loop invariant) + correspondence run",
    design="6/C13"),
+ "C01": dict(
+   text="Kernel-checked Lean theorems: the dedupe loop over the proved hash-table model (C13) writes exactly the first-occurrence "
+        "lines of any input for any key function without a zero hash, in input order (hence sublist, no key twice, every key once, "
+        "idempotent; text-level under the documented no-collision hypothesis); -p mode equals the two-table short-circuit "
+        "specification, whose outputs are aligned input pairs in order, repeat no key on either side and never drop a pair whose "
+        "two sides are both new. Tied to bin/dedupe by differential runs over key specs, delimiters, pipe/mmap/gz/bz2/xz backings, "
+        "120k-3M distinct keys (all growth steps) and -p, with the text-level first-occurrence spec as oracle.",
+   note="Trusted: Lean kernel + standard axioms; composition of the C02 record spec, C10 fields, C14 Murmur and C13 table models "
+        "tied by bounded differential execution; 64-bit collisions and a zero hash excepted (stated hypotheses).",
+   technique="Lean 4 proof (dedupe_eq_firstOcc via C13 refinement, dedupePar_eq_spec) + correspondence run",
+   design="6/C01"),
+ "C06": dict(
+   text="Kernel-checked Lean theorems for the partition part: the output files are a permutation-partition of the input, each file "
+        "is an in-order sublist, the file of a line is key % n only (purity, co-location), per-shard dedupe equals whole-input "
+        "dedupe as a multiset, --prefix/--number names are n distinct names. Tied to bin/shard by differential runs for n in "
+        "1..12,100, both naming modes, key specs, none/gzip/bzip2 with every file expanded by independent decoders (Python and the "
+        "gzip/bzip2 tools), empty input/empty shards, --number 0. File validity of the compressed writer is C15's concern and is "
+        "observed here.",
+   note="Trusted: Lean kernel + standard axioms; writer threads (C16) and codecs (zlib/bzip2, C15) are outside this model and "
+        "checked with independent decoders; bounded differential execution.",
+   technique="Lean 4 proof (shard_partition, dedupe_commutes, ...) + correspondence run with independent gzip/bzip2 decoders",
+   design="6/C06"),
+ "C08": dict(
+   text="Kernel-checked Lean theorems over a model of b64filter's feeder/reader bookkeeping on the C09 codec: the line count sent "
+        "to the reader is never the end marker 0; feeding a document and reassembling the same lines gives back the document "
+        "(empty, newline-only, with/without final newline, NUL, CR); with an identity child the output is the canonical base64 of "
+        "each input document (padded or unpadded input); one output line per document; for every line-preserving child document "
+        "i's output is built from exactly the answers to document i's lines (no shift). Tied to bin/b64filter with cat/tr/sed "
+        "children on exhaustive small documents and random large ones.",
+   note="Trusted: Lean kernel + standard axioms; the child is a function on line sequences (threads/pipes are C05); strip_cr "
+        "argument regenerated from the source; bounded differential execution.",
+   technique="Lean 4 proof (identity_child_exact, no_shift, describe_reassemble) + correspondence run",
+   design="6/C08"),
+ "C18": dict(
+   text="Kernel-checked Lean theorems for remove_long_lines (exact limit, sublist, f(A++B)=f A++f B), remove_invalid_utf8 (keeps "
+        "exactly the well-formed lines, compositional), remove_invalid_utf8_base64 (line-wise, compositional), subtract_lines "
+        "(removes every copy of every subtrahend key and nothing else, through the proved table model) and commoncrawl_dedupe "
+        "(strip, drop delimiter lines, first occurrence, only well-formed output, no key twice). simple_cleaning is decided at the "
+        "tool level only (subsequence, never passes ill-formed UTF-8 or C0 controls, compositional on all splittings). Tied to the "
+        "six binaries by differential runs incl. every splitting A++B of short sequences.",
+   note="Trusted: Lean kernel + standard axioms; ICU classification inside simple_cleaning is not modelled; 64-bit collisions "
+        "excepted; bounded differential execution.",
+   technique="Lean 4 proof (filter lemmas, subtract_spec, ccdedupe_spec via C13) + correspondence run",
+   design="6/C18"),
 }
 
 NOT_APPLICABLE = []
